@@ -543,4 +543,85 @@ func C19(c *core.Ctx) {
 		c.Decide(ok, "R19.3", "publish-under-new-sequence", p.Pos(po.Pos()), "the operation is published under the freshly incremented sequence number", "publishOp does not name the published operation by the sequence number it just incremented: peers fetch a sequence number that holds a different (or no) operation")
 	}
 	_ = fmt.Sprint
+
+	// ---- R19.4 the "fetch in progress" mark of a router's prefix log is typestate: once it
+	// is set, every way out of prefixDataFetch either leaves an Interest in flight (whose
+	// callback clears the mark) or clears the mark itself. The engine does not call the
+	// callback of an Interest that could not be made or sent.
+	if pf := c.Fn("R19.4", "dv/dv", "Router", "prefixDataFetch"); pf != nil {
+		var sets []ssa.Instruction
+		core.Instrs(pf, func(in ssa.Instruction) {
+			if _, v, ok := storeToField(in, "", "Fetching"); ok {
+				if b, isC := core.ConstBool(v); isC && b {
+					sets = append(sets, in)
+				}
+			}
+		})
+		c.Floor("R19.4", "stores of Fetching = true", len(sets), 1)
+		var express ssa.Value
+		core.Instrs(pf, func(in ssa.Instruction) {
+			if cl, ok := in.(*ssa.Call); ok && cl.Call.IsInvoke() && cl.Call.Method.Name() == "Express" {
+				express = cl
+			}
+		})
+		isClear := func(in ssa.Instruction) bool {
+			if _, v, ok := storeToField(in, "", "Fetching"); ok {
+				if b, isC := core.ConstBool(v); isC && !b {
+					return true
+				}
+			}
+			return false
+		}
+		// a call of a local closure that clears the mark counts as clearing it
+		isClearDeep := func(in ssa.Instruction) bool {
+			if isClear(in) {
+				return true
+			}
+			if cl, ok := in.(*ssa.Call); ok && !cl.Call.IsInvoke() {
+				var fn *ssa.Function
+				if mc, isMC := core.Strip(cl.Call.Value).(*ssa.MakeClosure); isMC {
+					fn, _ = mc.Fn.(*ssa.Function)
+				} else if f2, isF := cl.Call.Value.(*ssa.Function); isF {
+					fn = f2
+				}
+				if fn != nil && fn.Blocks != nil && fn.Parent() == pf {
+					all := true
+					core.Instrs(fn, func(ssa.Instruction) {})
+					r := core.MustFollow(fn, core.Point{Block: fn.Blocks[0], Idx: 0}, isClear, nil)
+					all = r.OK
+					return all
+				}
+			}
+			return false
+		}
+		for i, st := range sets {
+			cut := map[core.Edge]bool{}
+			if express != nil {
+				sent := atomNonNil("Express error", express)
+				for _, f := range core.EdgeFacts(pf, sent) {
+					if !f.Holds { // err == nil: the Interest is in flight
+						cut[f.E] = true
+					}
+				}
+			}
+			fr := core.MustFollowCut(pf, core.After(st), isClearDeep, nil, cut)
+			c.Decide(express != nil && fr.OK, "R19.4", fmt.Sprintf("fetch-mark-cleared-on-failure#%d", i), c.Pos(st), "every exit that leaves no Interest in flight clears the fetch mark", "prefixDataFetch marks the router as being fetched and can return without an Interest in flight and without clearing the mark (a failed MakeInterest or Express: no callback will come): the prefix log of that router is never fetched again, and the peer's view of its announced prefixes stays behind for ever")
+		}
+		// the callback of the Interest clears the mark on all its paths
+		if express != nil {
+			cb := express.(*ssa.Call).Call.Args[len(express.(*ssa.Call).Call.Args)-1]
+			if mc, ok := core.Strip(cb).(*ssa.MakeClosure); ok {
+				if fn, isF := mc.Fn.(*ssa.Function); isF {
+					okCb := false
+					core.InstrsDeep(fn, func(in ssa.Instruction) {
+						if isClear(in) {
+							okCb = true
+						}
+					})
+					c.Decide(okCb, "R19.4", "fetch-callback-clears-mark", p.Pos(fn.Pos()), "the Interest's callback clears the fetch mark", "the callback of the prefix-log Interest never clears the fetch mark")
+				}
+			}
+		}
+	}
+
 }
